@@ -1,7 +1,7 @@
 #!/bin/bash
 # tools/confirm_seed.sh <worktree> <out_dir>: confirm a seeded change independently:
 #   existing tests pass with it, demo fails with it and passes without it. Copies patch + demo to <out_dir>.
-wt=$1; out=$2
+wt=$1; out=$(realpath -m "$2")
 cd "$wt" || exit 2
 git checkout -q -- mappyfile 2>/dev/null
 git apply seeded_patch.diff || { echo "PATCH DOES NOT APPLY"; exit 2; }
